@@ -130,6 +130,35 @@ def sharing(classes):
     return sorted(kinds)
 
 
+# ---- how many components a declared list has: case["sizes"] = [[value id, n]...], every id not named there has ONE component
+# (the model sees value ids only: which components a list holds plays no part in which list is selected)
+def size_map(case):
+    return {v: n for v, n in case.get("sizes") or []}
+
+
+def components(v, n):
+    """component indices of the list bound to value id v when it is declared with n components"""
+    return [v + 1000 * j for j in range(n)]
+
+
+def rep(v, sizes):
+    """what the harness observes for the list of value id v: the id itself for a one-component list, 1 (= the framework's
+    own empty list, the lists being compared by content) for an empty one, the component indices otherwise"""
+    n = sizes.get(v, 1)
+    return v if n == 1 else 1 if n == 0 else components(v, n)
+
+
+def value_ids(classes):
+    out = []
+    for i, (_, act, tab) in enumerate(classes):
+        if i == 0:
+            continue
+        for v in ([act] if act is not None else []) + [v for _, v in (tab or [])]:
+            if v not in out:
+                out.append(v)
+    return out
+
+
 class CHECK(Check):
     pid = "C19"
     entry = "C19"
@@ -144,7 +173,12 @@ class CHECK(Check):
             "parent/child/sibling classes declared over one shared default list, tables of different classes declared "
             "over the same lists), in four fixed arrangements x every small table x every request followed by the "
             "re-selection of the default's key, and as a random re-binding of 1-4 of the list slots before 2-5 "
-            "selections biased towards re-selecting on the same class with requests equal to declared keys.")
+            "selections biased towards re-selecting on the same class with requests equal to declared keys."
+            " Declared lists of 0, 2 or 3 components besides the one-component lists (a format generation that models "
+            "no component at all declares the empty list): every table of 1-3 keys x each key in turn (and the class "
+            "default) declared over an empty list x every request after an earlier selection of the greatest key, and "
+            "in a third of the random sequences / re-bindings 1-3 of the declared lists get 0, 2 or 3 components; the "
+            "register family reads a file holding one line per component with every class after the selections.")
     exhaustive = False
     assumptions = ["Python attribute lookup on classes (MRO of single inheritance) is modelled, not verified"]
 
@@ -169,6 +203,14 @@ class CHECK(Check):
                 [1, 5, t5],               # child of the owner with its OWN table (as many keys as the owner's, other keys)
             ]
 
+        def with_sizes(case):
+            # a third of the random cases: 1-3 of the declared lists have no, two or three components
+            if rng.random() < 0.34:
+                ids = value_ids(case["classes"])
+                picked = rng.sample(ids, min(len(ids), rng.randint(1, 3)))
+                case["sizes"] = [[v, rng.choice([0, 0, 0, 2, 3])] for v in sorted(picked)]
+            return case
+
         # complete enumeration: every table x every request x every target class, one selection
         for fi, fam in enumerate(FAMILIES):
             for ti, tk in enumerate(tables):
@@ -183,7 +225,8 @@ class CHECK(Check):
             tk = rng.choice(tables)
             sk = rng.choice(tables)
             ops = [[rng.choice([1, 2, 3, 4, 5, 5]), rng.choice(REQUESTS)] for _ in range(rng.randint(2, 4))]
-            yield {"fam": rng.choice(FAMILIES), "classes": mk(tk, sk), "ops": ops}
+            cl = mk(tk, sk)
+            yield with_sizes({"fam": rng.choice(FAMILIES), "classes": cl, "ops": ops})
 
         # ---- one list object bound under several names ------------------------------------------------------------
         # (value ids are list objects on the implementation side: equal ids = the very same list object, see impl)
@@ -218,20 +261,43 @@ class CHECK(Check):
                 keys = [k for _, _, t in cl if t for k, _ in t]
                 v = rng.choice(keys) if keys and rng.random() < 0.6 else rng.choice(REQUESTS)
                 ops.append([c, v])
-            yield {"fam": rng.choice(FAMILIES), "classes": cl, "ops": ops}
+            yield with_sizes({"fam": rng.choice(FAMILIES), "classes": cl, "ops": ops})
+
+        # ---- declared lists that do not have exactly one component -----------------------------------------------
+        # every table of 1-3 keys, each declared list in turn (slot -1: the owner's default) empty / of two components,
+        # the greatest key selected first, then every request, on the owner, the inheriting child and the child with a list
+        few = [t for t in tables if 1 <= len(t) <= 3]
+        n = 0
+        for fi, fam in enumerate(FAMILIES):
+            for ti, tk in enumerate(few):
+                for slot in range(-1, len(tk)):
+                    for vi, v in enumerate(REQUESTS):
+                        for target in (1, 2, 3):
+                            for size in (0, 2):
+                                n += 1
+                                if tier == "quick" and (n + ti) % 29 != 0:
+                                    continue
+                                cl = mk(tk, ["v1", "v2"])
+                                which = cl[1][1] if slot < 0 else cl[1][2][slot][1]
+                                other = [x for _, x in cl[1][2] if x != which]
+                                sizes = [[which, size]] + ([[other[(ti + vi) % len(other)], 2 - size]] if other and (ti + vi) % 3 == 0 else [])
+                                yield {"fam": fam, "classes": cl, "sizes": sizes, "ops": [[target, max(tk)], [target, v]]}
 
     def impl(self, case):
         base, attr = family(case["fam"])
         objs = {}
+        sizes = size_map(case)
+        if case["fam"] != "register":
+            for v, n in sizes.items():
+                objs[v] = components(v, n)
         if case["fam"] == "register":
             # real component lists: value id v is the list [register class with identifier "V<v>"], so that File.read
             # with the selected list can be observed too
             from .. import reglib
             ids = set([1, 2, 3, 4, 5] + [a for _, a, _ in case["classes"] if a is not None] + [v for _, _, t in case["classes"] if t for _, v in t])
+            mkrc = lambda x: reglib.mk_register_class({"ident": "V%d;" % x, "digits": len("V%d;" % x), "fields": [{"k": "lit", "size": 3, "start": 6}]}, x)
             for v in ids:
-                rc = reglib.mk_register_class({"ident": "V%d;" % v, "digits": len("V%d;" % v), "fields": [{"k": "lit", "size": 3, "start": 6}]}, v)
-                lst = [rc]
-                objs[v] = lst
+                objs[v] = [mkrc(x) for x in components(v, sizes.get(v, 1))]
         classes = [base]
         for i, (par, act, tab) in enumerate(case["classes"]):
             if i == 0:
@@ -251,7 +317,7 @@ class CHECK(Check):
             return {"error": "framework base class modified"}
         out = {"trace": trace}
         if case["fam"] == "register":
-            content = "".join("V%d; x\n" % v for v in sorted(objs))
+            content = "".join("V%d; x\n" % x for x in sorted(set([1, 2, 3, 4, 5] + [x for v in objs for x in components(v, sizes.get(v, 1))])))
             reads = []
             for k in classes[1:]:
                 f = k.read(content)
